@@ -33,6 +33,9 @@ pub enum Failure {
     PeerEnd(usize, bool),
     /// link: 0 = sender on session 0 (send awaiting outcome), 1 = receiver on session 0, 2 = sender on session 1 (awaiting credit)
     PeerDetach(usize, bool, bool),
+    /// the peer ends session 0 (with error?) and closes the connection in the same write: the session's handles
+    /// learn that, and why, their session ended, not merely that the connection went afterwards
+    PeerEndThenClose(bool),
 }
 
 impl Failure {
@@ -42,6 +45,7 @@ impl Failure {
             Failure::PeerClose(e) => json!({"kind": "peer-close", "error": e}),
             Failure::PeerEnd(s, e) => json!({"kind": "peer-end", "session": s, "error": e}),
             Failure::PeerDetach(l, c, e) => json!({"kind": "peer-detach", "link": l, "closed": c, "error": e}),
+            Failure::PeerEndThenClose(e) => json!({"kind": "peer-end-then-close", "error": e}),
         }
     }
     pub fn from_json(j: &J) -> Option<Failure> {
@@ -51,6 +55,7 @@ impl Failure {
             "peer-close" => Failure::PeerClose(e),
             "peer-end" => Failure::PeerEnd(j.get("session")?.as_u64()? as usize, e),
             "peer-detach" => Failure::PeerDetach(j.get("link")?.as_u64()? as usize, j.get("closed")?.as_bool()?, e),
+            "peer-end-then-close" => Failure::PeerEndThenClose(e),
             _ => return None,
         })
     }
@@ -106,6 +111,12 @@ async fn peer_task(mut peer: Peer, mut cmds: mpsc::UnboundedReceiver<Cmd>) {
                         our_ends.push(s as u16);
                         let _ = peer.send(10 + s as u16, Performative::End(End { error: if e { Some(scripted_error()) } else { None } }), &[]).await;
                     }
+                    Failure::PeerEndThenClose(e) => {
+                        our_ends.push(0);
+                        let mut bytes = Peer::encode_frame(10, &Performative::End(End { error: if e { Some(scripted_error()) } else { None } }), &[]);
+                        bytes.extend(Peer::encode_frame(0, &Performative::Close(Close { error: None }), &[]));
+                        let _ = peer.send_raw(&bytes).await;
+                    }
                     Failure::PeerDetach(l, closed, e) => {
                         let (ch, h) = match l { 0 => (10u16, 20u32), 1 => (10, 21), _ => (11, 20) };
                         our_detaches.push((ch - 10, h - 20));
@@ -129,8 +140,9 @@ async fn peer_task(mut peer: Peer, mut cmds: mpsc::UnboundedReceiver<Cmd>) {
                         let ours = Attach { name: a.name.clone(), handle: Handle(20 + a.handle.0), role: if sender { Role::Receiver } else { Role::Sender }, snd_settle_mode: a.snd_settle_mode.clone(), rcv_settle_mode: ReceiverSettleMode::First, source: a.source.clone(), target: a.target.clone(), unsettled: None, incomplete_unsettled: false, initial_delivery_count: if sender { None } else { Some(0) }, max_message_size: None, offered_capabilities: None, desired_capabilities: None, properties: None };
                         let _ = peer.send(10 + channel, Performative::Attach(ours), &[]).await;
                         // credit for the sender on session 0 only; the one on session 1 waits for credit
-                        if sender && channel == 0 {
-                            let f = Flow { next_incoming_id: Some(0), incoming_window: 1000, next_outgoing_id: 0, outgoing_window: 1000, handle: Some(Handle(20 + a.handle.0)), delivery_count: Some(0), link_credit: Some(100), available: None, drain: false, echo: false, properties: None };
+                        // (that one gets a single credit, which an earlier batchable send uses up)
+                        if sender {
+                            let f = Flow { next_incoming_id: Some(0), incoming_window: 1000, next_outgoing_id: 0, outgoing_window: 1000, handle: Some(Handle(20 + a.handle.0)), delivery_count: Some(0), link_credit: Some(if channel == 0 { 100 } else { 1 }), available: None, drain: false, echo: false, properties: None };
                             let _ = peer.send(10 + channel, Performative::Flow(f), &[]).await;
                         }
                         let _ = answered_attach;
@@ -208,6 +220,12 @@ pub fn run(case: &Case) -> Observed {
             let r = snd0.send(msg()).await.map(|o| format!("{:?}", o)).map_err(|e| format!("{:?}", e));
             (snd0, r)
         });
+        // the same on the sender of session 1, whose only credit this uses up
+        let batch1_fut = tr!(tokio::time::timeout(Duration::from_secs(5), snd1.send_batchable(msg())).await.map_err(|_| "no credit for the batchable send on session 1").and_then(|r| r.map_err(|_| "send_batchable on session 1 failed")), "send_batchable 1");
+        let t_batch1 = tokio::spawn(async move {
+            let r = batch1_fut.await.map(|o| format!("{:?}", o)).map_err(|e| format!("{:?}", e));
+            ((), r)
+        });
         let t_send_credit = tokio::spawn(async move {
             let r = snd1.send(msg()).await.map(|o| format!("{:?}", o)).map_err(|e| format!("{:?}", e));
             (snd1, r)
@@ -250,6 +268,7 @@ pub fn run(case: &Case) -> Observed {
             }};
         }
         let _ = take!("outcome of an earlier batchable send (session 0)", t_batch);
+        let _ = take!("outcome of an earlier batchable send (session 1)", t_batch1);
         let snd0 = take!("send awaiting its outcome (session 0)", t_send_outcome);
         let snd1 = take!("send awaiting credit (session 1)", t_send_credit);
         let rcv0 = take!("recv (session 0)", t_recv);
@@ -320,6 +339,7 @@ pub fn check(case: &Case, obs: &Observed) -> Option<(String, String)> {
         Failure::PeerClose(e) => format!("peer-close(error={})", e),
         Failure::PeerEnd(s, e) => format!("peer-end(session={},error={})", s, e),
         Failure::PeerDetach(l, c, e) => format!("peer-detach(link={},closed={},error={})", l, c, e),
+        Failure::PeerEndThenClose(e) => format!("peer-end-then-close(error={})", e),
     };
     if obs.panics > 0 {
         return Some((format!("panic:{}", tag), format!("{} panic(s)", obs.panics)));
@@ -327,25 +347,27 @@ pub fn check(case: &Case, obs: &Observed) -> Option<(String, String)> {
     // which operations in progress does the failure reach?
     let reaches = |name: &str| -> bool {
         match f {
-            Failure::TransportDrop | Failure::PeerClose(_) => true,
+            Failure::TransportDrop | Failure::PeerClose(_) | Failure::PeerEndThenClose(_) => true,
             Failure::PeerEnd(s, _) => name.contains(&format!("session {}", s)),
             Failure::PeerDetach(l, _, _) => match l {
-                0 => name.starts_with("send awaiting its outcome") || name.starts_with("outcome of an earlier batchable"),
+                0 => name.starts_with("send awaiting its outcome") || name == "outcome of an earlier batchable send (session 0)",
                 1 => name.starts_with("recv"),
-                _ => name.starts_with("send awaiting credit"),
+                _ => name.starts_with("send awaiting credit") || name == "outcome of an earlier batchable send (session 1)",
             },
         }
     };
     let with_error = match f {
         Failure::TransportDrop => false,
         Failure::PeerClose(e) | Failure::PeerEnd(_, e) | Failure::PeerDetach(_, _, e) => *e,
+        // the close itself carries no error; the end's error is judged for the operations of session 0 below
+        Failure::PeerEndThenClose(_) => false,
     };
     for (name, r) in &obs.in_progress {
         if reaches(name) {
             // the future of an earlier send_batchable after the peer detached its link: two recorded findings,
             // keyed by what happens rather than by the error flag of the scenario
             if name.starts_with("outcome of an earlier batchable") {
-                if let Failure::PeerDetach(0, closed, _) = f {
+                if let Failure::PeerDetach(0, closed, _) | Failure::PeerDetach(2, closed, _) = f {
                     if r == "PENDING" && !*closed {
                         return Some(("hangs:batchable-outcome-after-non-closing-detach".into(), format!("`{}` was still pending 500 virtual ms after the peer detached the link ({})", name, tag)));
                     }
@@ -361,7 +383,23 @@ pub fn check(case: &Case, obs: &Observed) -> Option<(String, String)> {
                 return Some((format!("completed-without-error:{}", tag), format!("`{}` returned {}", name, r)));
             }
             // the level
+            if let Failure::PeerEndThenClose(e) = f {
+                // the session ended first: its operations say so, with the peer's error; everything else went with the
+                // connection.  Judged once the engines are idle (from 50 ms on): earlier, whether the session engine
+                // gets to see the end before the connection has gone is the scheduler's choice, and an end without
+                // an error yields to the connection's reason by design.
+                if *e && case.at_ms >= 50 && name.contains("session 0") && r.starts_with("err:") {
+                    if !(r.contains("RemoteEnded") || r.contains("Ended")) {
+                        return Some((format!("error-names-wrong-level:{}", tag), format!("`{}` failed with {}: the peer had ended its session before it closed the connection", name, r)));
+                    }
+                    if *e && !(r.contains("scripted-condition") || r.contains("ResourceLimitExceeded")) {
+                        return Some((format!("peer-condition-lost:{}:{}", tag, name.split(' ').take(2).collect::<Vec<_>>().join("-")), format!("`{}` failed with {} which does not carry the error of the peer's end", name, r)));
+                    }
+                }
+                continue;
+            }
             let level_ok = match f {
+                Failure::PeerEndThenClose(_) => true,
                 Failure::TransportDrop | Failure::PeerClose(_) => r.contains("Connection") || r.contains("Transport") || r.contains("RemoteClosed"),
                 Failure::PeerEnd(_, _) => r.contains("Session") || r.contains("RemoteEnded") || r.contains("Ended"),
                 Failure::PeerDetach(_, closed, _) => r.contains("Detach") || r.contains("Closed") || r.contains("detach") || (*closed && r.contains("Close")),
@@ -525,6 +563,7 @@ pub fn all_failures() -> Vec<Failure> {
             }
         }
     }
+    v.push(Failure::PeerEndThenClose(true));
     v
 }
 
@@ -637,6 +676,8 @@ pub fn main(opts: &Opts) {
                 Failure::PeerClose(e) => format!("P cause close {}", *e as u8),
                 Failure::PeerEnd(_, e) => format!("P cause end {}", *e as u8),
                 Failure::PeerDetach(_, c, e) => format!("P cause detach {} {}", *c as u8, *e as u8),
+                // for the operations of the session that was ended first, the cause is that end
+                Failure::PeerEndThenClose(e) => format!("P cause end {}", *e as u8),
             };
             for (name, r) in &obs.in_progress {
                 // the operations the failure reaches directly, except the two recorded batchable-outcome findings
@@ -648,6 +689,8 @@ pub fn main(opts: &Opts) {
                         1 => name.starts_with("recv"),
                         _ => name.starts_with("send awaiting credit"),
                     },
+                    Failure::PeerEndThenClose(_) => name.contains("session 0") && !name.starts_with("outcome of an earlier"),
+
                 };
                 if reached && r.starts_with("err:") && !(name.starts_with("outcome of an earlier") && matches!(f, Failure::PeerDetach(..))) {
                     lines.push(line.clone());
